@@ -300,3 +300,125 @@ example :
       [.fw, .listen, .sendnext, .fw, .listen, .sendnext, .fw, .listen, .listen, .sendnext, .listen, .sendnext, .fw, .fw,
        .listen, .listen]).map (fun s => (s.accepted, s.printing)) = some (["G1 X0", "G1 X1"], false) := by
   decide
+
+
+/-! ### Completeness without faults: stop-and-wait token invariant -/
+
+def noFault : Nat → Bool := fun _ => false
+
+/-- exactly one "token": with the sender (clear), on the wire as a frame, or on the wire as an `ok` -/
+def Tok (lines : List String) (s : St) : Prop :=
+  (s.resets = 0 ∧ s.toFw = [m110Frame true] ∧ s.toS = [] ∧ s.clear = false ∧ s.printing = true ∧
+      s.lineno = 0 ∧ s.qi = 0 ∧ s.accepted = [] ∧ s.resendfrom = -1)
+  ∨ (s.resets = 1 ∧ s.printing = true ∧ s.resendfrom = -1 ∧ s.qi = s.lineno ∧ s.lineno ≤ lines.length ∧
+      ( (s.clear = true ∧ s.toFw = [] ∧ s.toS = [] ∧ s.expected = s.lineno ∧ s.accepted = lines.take s.lineno)
+      ∨ (s.clear = false ∧ s.toS = [] ∧ ∃ k cmd, s.lineno = k + 1 ∧ lines[k]? = some cmd ∧
+            s.toFw = [⟨(k : Int), cmd, false, true⟩] ∧ s.expected = k ∧ s.accepted = lines.take k)
+      ∨ (s.clear = false ∧ s.toFw = [] ∧ s.toS = [.ok] ∧ s.expected = s.lineno ∧ s.accepted = lines.take s.lineno)))
+  ∨ (s.printing = false ∧ s.accepted = lines ∧ (∀ f ∈ s.toFw, f.m110 = true) )
+
+theorem tok_init (lines : List String) (e0 : Int) : Tok lines (init noFault e0) := by
+  refine Or.inl ?_
+  simp [init, transmit, noFault, m110Frame]
+
+theorem tok_step (lines : List String) {s s' : St} (a : Act) (h : Tok lines s)
+    (hs : step lines noFault s a = some s') : Tok lines s' := by
+  rcases h with h | h | h
+  · -- only the firmware can move: it consumes the reset
+    obtain ⟨hr, hfw, hto, hc, hp, hl, hq, ha, hrf⟩ := h
+    cases a with
+    | sendnext => simp [step, hp, hc] at hs
+    | listen => simp [step, hto] at hs
+    | fw =>
+      simp [step, hfw, m110Frame] at hs; subst hs
+      refine Or.inr (Or.inl ⟨by simp [hr], hp, hrf, by simp [hq, hl], by simp [hl], Or.inr (Or.inr ⟨hc, rfl, by simp [hto], by simp [hl], by simp [ha, hl]⟩)⟩)
+  · obtain ⟨hr, hp, hrf, hq, hl, hcase⟩ := h
+    rcases hcase with ⟨hc, hfw, hto, he, ha⟩ | ⟨hc, hto, k, cmd, hk, hline, hfw, he, ha⟩ | ⟨hc, hfw, hto, he, ha⟩
+    · -- token with the sender
+      cases a with
+      | listen => simp [step, hto] at hs
+      | fw => simp [step, hfw] at hs
+      | sendnext =>
+        simp only [step, hp, hc, Bool.and_self, if_true, hrf] at hs
+        simp at hs
+        cases hq' : lines[s.qi]? with
+        | some cmd =>
+          simp [hq'] at hs; subst hs
+          have hlen : s.lineno < lines.length := by
+            have := (List.getElem?_eq_some_iff.mp hq').1; omega
+          refine Or.inr (Or.inl ⟨by simp [transmit, hr], by simp [transmit, hp], by simp [transmit], by simp [transmit, hq],
+            by simp [transmit]; omega,
+            Or.inr (Or.inl ⟨by simp [transmit], by simp [transmit, hto], s.lineno, cmd, by simp [transmit],
+              by rw [← hq]; exact hq', by simp [transmit, hfw, noFault], by simp [transmit, he], by simp [transmit, ha]⟩)⟩)
+        | none =>
+          simp [hq'] at hs; subst hs
+          have hge : lines.length ≤ s.lineno := by
+            have := List.getElem?_eq_none_iff.mp hq'; omega
+          refine Or.inr (Or.inr ⟨by simp [transmit], ?_, ?_⟩)
+          · simp only [transmit]; rw [ha]; exact List.take_of_length_le hge
+          · intro f hf; simp [transmit, hfw] at hf; subst hf; rfl
+    · -- a numbered frame is on the wire
+      cases a with
+      | sendnext => simp [step, hp, hc] at hs
+      | listen => simp [step, hto] at hs
+      | fw =>
+        simp [step, hfw, he] at hs; subst hs
+        refine Or.inr (Or.inl ⟨hr, hp, hrf, hq, hl, Or.inr (Or.inr ⟨hc, rfl, by simp [hto], by simp [hk, he], ?_⟩)⟩)
+        simp only [hk]
+        rw [ha]; exact take_succ_of_getElem? hline
+    · -- the acknowledgement is on the wire
+      cases a with
+      | sendnext => simp [step, hp, hc] at hs
+      | fw => simp [step, hfw] at hs
+      | listen =>
+        simp [step, hto] at hs; subst hs
+        exact Or.inr (Or.inl ⟨hr, hp, hrf, hq, hl, Or.inl ⟨rfl, hfw, rfl, he, ha⟩⟩)
+  · obtain ⟨hp, ha, hm⟩ := h
+    cases a with
+    | sendnext => simp [step, hp] at hs
+    | listen =>
+      simp only [step] at hs
+      cases hts : s.toS with
+      | nil => simp [hts] at hs
+      | cons r rs => rw [hts] at hs; cases r <;> simp at hs <;> subst hs <;> exact Or.inr (Or.inr ⟨hp, ha, hm⟩)
+    | fw =>
+      simp only [step] at hs
+      cases htf : s.toFw with
+      | nil => simp [htf] at hs
+      | cons f fs =>
+        rw [htf] at hs
+        have hf := hm f (by simp [htf])
+        have hfs : ∀ g ∈ fs, g.m110 = true := fun g hg => hm g (by simp [htf, hg])
+        by_cases hg : f.good <;> simp [hg, hf] at hs <;> subst hs <;> exact Or.inr (Or.inr ⟨hp, ha, hfs⟩)
+
+theorem tok_run (lines : List String) : ∀ (acts : List Act) (s s' : St), Tok lines s →
+    run lines noFault s acts = some s' → Tok lines s'
+  | [], s, s', h, hr => by simp [run] at hr; subst hr; exact h
+  | a :: as, s, s', h, hr => by
+      simp only [run] at hr
+      cases hst : step lines noFault s a with
+      | none => simp [hst] at hr
+      | some s1 => simp [hst] at hr; exact tok_run lines as s1 s' (tok_step lines a h hst) hr
+
+/-- no action is enabled -/
+def Quiescent (lines : List String) (s : St) : Prop := ∀ a, step lines noFault s a = none
+
+/-- **C15_complete (no faults)**: whatever the schedule, once nothing more can happen the firmware has accepted
+    exactly the job, in order, each line once. -/
+theorem C15_complete_nofault (lines : List String) (e0 : Int) (acts : List Act) (s : St)
+    (hr : run lines noFault (init noFault e0) acts = some s) (hq : Quiescent lines s) : s.accepted = lines := by
+  have h := tok_run lines acts _ s (tok_init lines e0) hr
+  rcases h with h | h | h
+  · have := hq .fw; simp [step, h.2.1, m110Frame] at this
+  · obtain ⟨_, hp, hrf, hq', hl, hcase⟩ := h
+    rcases hcase with ⟨hc, _⟩ | ⟨_, _, k, cmd, _, _, hfw, _⟩ | ⟨_, _, hto, _⟩
+    · have := hq .sendnext
+      simp only [step, hp, hc, Bool.and_self, if_true, hrf] at this
+      simp at this
+      cases hq2 : lines[s.qi]? <;> simp [hq2] at this
+    · have := hq .fw; simp [step, hfw] at this
+      split at this <;> simp at this
+    · have := hq .listen; simp [step, hto] at this
+  · exact h.2.1
+
+#print axioms C15_complete_nofault
